@@ -30,6 +30,9 @@ func main() {
 		runGrid(R, prop)
 	case "C04":
 		runC04(R)
+	case "C18":
+		vsched.TrackStates = false
+		runC18conn(R)
 	case "C20":
 		runC20(R)
 	case "C13":
